@@ -103,6 +103,8 @@ def run(ctx):
 
     ctx.rule("C01-R5", "the accept tasks hand on the stream object the preamble was read from (uni: kind==WebTransport; bidi: first non-GREASE frame has a session id)")
     shared.spawned_task_tables(ctx, "C01-R5")
+    ctx.rule("C01-R7", "end-of-stream follows the bytes: finish() returns only after the peer acknowledged all data and the FIN")
+    shared.finish_table(ctx, "C01-R7")
     ctx.rule("C01-R6", "an accepted stream is never dropped with a cancelled branch of the worker loop (its preamble is read in a task that owns it)")
     shared.acceptor_branches(ctx, "C01-R6")
     for nm in ("accept_uni", "accept_bi"):
